@@ -12,6 +12,9 @@ use crate::spec::*;
 pub struct WModel {
     /// (id, known-size?)
     pub open: Vec<(u64, bool)>,
+    /// ids of open masters that were started with an explicit size width (their End, and therefore flush /
+    /// into_inner, may legitimately fail with TagSizeError when the content does not fit)
+    pub explicit_width_open: Vec<u64>,
     pub accepted: Vec<NItem>,
     /// an unknown-size master was ended explicitly and nothing that closes it on read-back followed yet
     pub pending_unknown_close: bool,
@@ -30,10 +33,16 @@ impl WModel {
             WCall::Tag(t, opt) => match t {
                 NItem::Start(id) => {
                     self.pending_unknown_close = false;
+                    if matches!(opt, WOpt::Width(_)) {
+                        self.explicit_width_open.push(*id);
+                    }
                     self.open.push((*id, !matches!(opt, WOpt::Unknown | WOpt::UnknownDeprecated)));
                     self.accepted.push(t.clone());
                 }
-                NItem::End(_) => {
+                NItem::End(id) => {
+                    if let Some(k) = self.explicit_width_open.iter().rposition(|x| x == id) {
+                        self.explicit_width_open.remove(k);
+                    }
                     let known = self.open.pop().map(|o| o.1).unwrap_or(true);
                     self.pending_unknown_close = if known { false } else { true };
                     self.accepted.push(t.clone());
@@ -60,6 +69,7 @@ impl WModel {
                     self.pending_unknown_close = !known;
                     self.accepted.push(NItem::End(id));
                 }
+                self.explicit_width_open.clear();
             }
         }
     }
@@ -216,6 +226,10 @@ impl<'a> Explorer<'a> {
                 mf.apply(&WCall::Flush);
                 match std::panic::catch_unwind(std::panic::AssertUnwindSafe(move || w.into_inner())) {
                     Err(p) => ctx.violation("into_inner/panic", &d, &crate::obs::panic_msg(p)),
+                    Ok(Err(ebml_iterable::error::TagWriterError::TagSizeError(_))) if !m.explicit_width_open.is_empty() => {
+                        // a master with an explicit size width is open: whether its content fits is C09's business
+                        ctx.count("into_inner_refused_for_explicit_width_master", 1);
+                    }
                     Ok(Err(e)) => ctx.violation("into_inner/failed", &d, &format!("{:?}", e)),
                     Ok(Ok(dest)) => {
                         ctx.transitions += 1;
